@@ -95,6 +95,7 @@ class Judge:
     def __init__(self, R, noise_fn):
         self.R, self.noise_fn, self._noise = R, noise_fn, None
         self.failed = False
+        self._confirmed = False
 
     def noise(self, which):
         if self._noise is None:
@@ -124,5 +125,20 @@ class Judge:
             # trajectory amplifies rounding by > 1e9 and no finite multiple of the replica noise bounds a reordering of sums
             self.R.undecided(monitor, 'chaotic trajectory (replica noise > 100x tolerance)')
             return True
+        if not self._confirmed:
+            # before a mismatch is reported the noise estimate is confirmed on more replicas: rounding-decided branches (the sign of a
+            # rounding-level eigenvalue deciding whether it is floored) make the replica noise bimodal - 3 of 12 replicas of one
+            # single-precision case moved the posterior by 0.98, the first three by 2e-7
+            self._confirmed = True
+            try:
+                more = self.noise_fn(range(100, 109)) or {}
+                for k, v in more.items():
+                    self._noise[k] = max(float(self._noise.get(k, 0.0)), float(v))
+            except TypeError:
+                pass                      # noise function without replica indices
+            except Exception as e:
+                self.R.count('replica noise measurement failed: ' + type(e).__name__)
+                self.failed = True
+            return self(monitor, value, tol, which, key, msg, **info)
         self.R.fail(monitor, key, msg + f' (replica noise {nz:.2e})', **info)
         return False
